@@ -3,6 +3,7 @@ import Driver.BlobDrv
 import Driver.DiskDrv
 import Driver.AuthDrv
 import Driver.ACDrv
+import Driver.ProtoDrv
 /-!
 Line-protocol driver over the executable models (DESIGN.md Appendix B).
 One operation per input line, one result line per operation.  Core Lean only, so that it links
@@ -27,6 +28,10 @@ def dispatch (s : DState) (line : String) : DState × String :=
     else if t.startsWith "disk." then
       match diskStep s.disk toks with
       | some (d, out) => ({ s with disk := d }, out)
+      | none => (s, "bad-op")
+    else if t.startsWith "url." || t.startsWith "bs." then
+      match protoStep toks with
+      | some out => (s, out)
       | none => (s, "bad-op")
     else if t.startsWith "ac." then
       match acStep toks with
